@@ -217,7 +217,7 @@ theorem exCol_committed : Committed exCol where
     intro l r e
     simp [mkMerge] at e
     obtain ⟨rfl, rfl⟩ := e
-    exact ⟨by unfold Antichain; decide, 1, [3, 2], by rfl⟩
+    exact ⟨by unfold Antichain; decide, 3, [2], by rfl⟩
   mergePrio := by unfold MergePrio; decide
 
 theorem exCol_heads : Heads exCol [5, 6, 10] := ⟨by decide, by decide, by decide, by unfold Antichain; decide⟩
@@ -257,5 +257,17 @@ def exFin : Graph :=
 
 example : factsOf exFin [2, 3, 4] = .error .parallelFinalize ∧
     stateAt (exFin ++ foldCmds [2, 3, 4] [20, 21]) 21 = .error .parallelFinalize := by decide
+
+/-- `MergePrio` cannot be dropped: if ordinary (single-parent) commands could carry the `Merge`
+priority, a fold merge with a larger id would hide the head `10` behind it while `20` is popped,
+and the collapsed state would differ from the fact cache (logs `…, c, a` vs `…, a, c`).  The real
+policy never assigns `Priority::Merge` to a policy command (`vm_policy.rs::get_command_priority`
+yields `Init | Basic n | Finalize` only; `Priority::Merge` is set in `merge()` alone). -/
+def exBad : Graph :=
+  [exL 1 [] .init "1", exL 10 [1] .merge "a", exL 11 [1] (.basic 0) "b", exL 20 [1] .merge "c"]
+
+example : ¬ MergePrio exBad ∧
+    factsOf exBad [10, 11, 20] ≠ stateAt (exBad ++ foldCmds [10, 11, 20] [100, 101]) 101 :=
+  ⟨by unfold MergePrio; decide, by decide⟩
 
 end AranyaV.Spec
